@@ -31,7 +31,7 @@ def demo_cmd(wt, demo, out):
               "src/File.cpp", "src/Path.cpp", "src/Exception.cpp", "src/LocaleInfo.cpp", "src/DirectoryVisitor.cpp",
               "src/observer/routing/SubjectRouter.cpp", "src/observer/routing/RoutingKey.cpp", "src/observer/routing/RoutingKeyBuilder.cpp",
               "src/observer/routing/RoutingLevelView.cpp"):
-        if os.path.basename(s) in txt or s in txt:
+        if os.path.basename(s) in txt or s in txt or (os.path.dirname(s) + "/*.cpp") in txt:
             srcs.append(os.path.join(wt, s))
     m = re.search(r"(g\+\+[^\n]*)", txt)
     flags = "-std=c++20 -O1 -g -fsanitize=address,undefined"
